@@ -13,6 +13,22 @@ type Crash struct {
 	Msg   string // first line of the panic / fatal error message
 	Frame string // top go-task frame (function, no arguments, no line numbers), "" if none
 	Via   string // the non-runtime frame directly above Frame, if it is not a go-task frame (e.g. regexp.MustCompile)
+	// Origin is the function in which the (innermost, original) panic was raised:
+	// the first non-runtime frame below the last "panic(" frame. For a panic that
+	// passed through recover-and-repanic plumbing (yaml's handleErr) this is the
+	// real site, not the plumbing.
+	Origin string
+}
+
+// thirdParty reports whether fn belongs to a module other than the standard
+// library and go-task (first path element contains a dot).
+func thirdParty(fn string) bool {
+	i := strings.Index(fn, "/")
+	if i < 0 {
+		return false // "regexp.MustCompile": a top-level standard library package
+	}
+	first := fn[:i]
+	return strings.Contains(first, ".") && !strings.HasPrefix(fn, modRoot+"/") && !strings.HasPrefix(fn, modRoot+".")
 }
 
 var hexRe = regexp.MustCompile(`0x[0-9a-fA-F]+`)
@@ -85,6 +101,29 @@ func ParseCrash(stderr string) (c Crash, ok bool) {
 	if g < 0 {
 		return c, true
 	}
+	// origin of the innermost panic
+	lastPanic := g
+	end := len(lines)
+	for i := g + 1; i < len(lines); i++ {
+		if strings.TrimSpace(lines[i]) == "" {
+			end = i
+			break
+		}
+		if strings.HasPrefix(lines[i], "panic(") {
+			lastPanic = i
+		}
+	}
+	for i := lastPanic + 1; i < end; i++ {
+		if !isFuncLine(lines[i]) {
+			continue
+		}
+		fn := stripArgs(lines[i])
+		if fn == "panic" || strings.HasPrefix(fn, "runtime.") || strings.HasPrefix(fn, "runtime/") || strings.HasPrefix(fn, "internal/") {
+			continue
+		}
+		c.Origin = strings.ReplaceAll(fn, "%2e", ".")
+		break
+	}
 	prev := ""
 	for i := g + 1; i < len(lines); i++ {
 		l := lines[i]
@@ -121,6 +160,10 @@ func ParseCrash(stderr string) (c Crash, ok bool) {
 
 // Site renders the crash as the role tags of a signature.
 func (c Crash) Site() string {
+	if c.Kind == "panic" && c.Origin != "" && thirdParty(c.Origin) {
+		// raised inside a dependency: one defect there has many go-task callers
+		return c.Origin + " (dependency)"
+	}
 	s := c.Frame
 	if s == "" {
 		s = "(no frame) " + c.Msg
